@@ -204,7 +204,8 @@ Definition determine_target_folder (headers : str -> option str) (default : str)
 (* ------------------------------------------------------------------ *)
 (** * Session.handleRCPT (after MAIL FROM) *)
 
-Inductive rcpt_reply := RC250 | RC452 | RC501 | RC550_invalid | RC550_relay | RC450 | RC550_unknown.
+Inductive rcpt_reply := RC250 | RC452 | RC501 | RC550_invalid | RC550_relay | RC450 | RC550_unknown
+  | RC503.   (* RCPT before MAIL (session level only) *)
 
 Definition rcpt_ok (r : rcpt_reply) : bool := match r with RC250 => true | _ => false end.
 
@@ -419,3 +420,55 @@ Fixpoint merge_outcomes (rs : list rcpt_reply) (dos : list moutcome) : list mout
 
 Definition txn_outcomes (o : txn_out) : list moutcome :=
   merge_outcomes (to_rcpt o) (data_outcomes (length (to_accepted o)) (to_data o)).
+
+(* ------------------------------------------------------------------ *)
+(** * the session: several transactions on one connection (after LHLO)
+
+    Session fields mailSeen / recipients; handleMAIL, handleRCPT, handleDATA,
+    handleRSET, rejectMessage. Every way out of handleDATA after the message
+    has been read (delivery, rejectMessage 552 / 554 / 554) resets the state;
+    the two 503 exits before the 354 do not. *)
+
+Record sstate := mkS { mail_seen : bool; s_rcpts : list str }.
+Definition s_reset : sstate := mkS false [].
+
+Inductive cmd := C_MAIL | C_RCPT (args : str) | C_DATA (m : message) | C_RSET.
+
+Inductive sreply :=
+| SR_mail (ok : bool)            (* 250 / 503 "Sender already specified" *)
+| SR_rcpt (r : rcpt_reply)
+| SR_data (o : data_out)
+| SR_rset.
+
+Definition step (cfg : config) (st : sstate * db) (c : cmd) : sreply * (sstate * db) :=
+  let '(s, d) := st in
+  match c with
+  | C_MAIL =>
+      if mail_seen s then (SR_mail false, st)
+      else (SR_mail true, (mkS true (s_rcpts s), d))
+  | C_RCPT args =>
+      if negb (mail_seen s) then (SR_rcpt RC503, st)
+      else let '(r, rec') := handle_rcpt cfg d (s_rcpts s) args in
+           (SR_rcpt r, (mkS (mail_seen s) rec', d))
+  | C_DATA m =>
+      if negb (mail_seen s) then (SR_data (mkDataOut DR503 [] [] d), st)
+      else match s_rcpts s with
+           | [] => (SR_data (mkDataOut DR503 [] [] d), st)
+           | _ => let o := handle_data cfg d (s_rcpts s) m in
+                  (SR_data o, (s_reset, do_db o))
+           end
+  | C_RSET => (SR_rset, (s_reset, d))
+  end.
+
+Fixpoint run_session (cfg : config) (st : sstate * db) (cs : list cmd) : list sreply * (sstate * db) :=
+  match cs with
+  | [] => ([], st)
+  | c :: rest =>
+      let '(r, st1) := step cfg st c in
+      let '(rs, st2) := run_session cfg st1 rest in
+      (r :: rs, st2)
+  end.
+
+(** one transaction as commands *)
+Definition block_cmds (b : list str * message) : list cmd :=
+  C_MAIL :: map C_RCPT (fst b) ++ [C_DATA (snd b)].
